@@ -72,7 +72,7 @@ func main() {
 
 	names := make([]string, 0)
 	for n := range registry.Probes {
-		if strings.HasPrefix(n, "core_") && (only == "" || only == n) {
+		if (strings.HasPrefix(n, "core_") || strings.HasPrefix(n, "rnd_")) && (only == "" || only == n) {
 			names = append(names, n)
 		}
 	}
